@@ -211,10 +211,15 @@ def borrowUnsafe (e : Env) (b : Borrow) : Bool :=
 
 /-! ## (ii) the sweep -/
 
-/-- `GetSliceStartEndForLiquidations` on Go `int`s, verbatim -/
+/-- two's-complement wrap-around of Go `int` (64-bit) arithmetic -/
+def wrapInt (x : Int) : Int := (x + 9223372036854775808) % 18446744073709551616 - 9223372036854775808
+
+/-- `GetSliceStartEndForLiquidations` on Go `int`s, verbatim: `end := offset + batchSize` wraps at 2^63 (then `end` is
+negative and the caller's slice expression panics; needs `LiquidationBatchSize ≥ 2^63 − offset`).  The wrap was found by
+the regenerated translation of the function, `Props/C09Pure.lean`. -/
 def sliceBoundsI (len off batch : Int) : Int × Int :=
   if off ≥ len ∨ off < 0 ∨ batch < 0 then (len, len)
-  else if off + batch ≥ len then (off, len) else (off, off + batch)
+  else if wrapInt (off + batch) ≥ len then (off, len) else (off, wrapInt (off + batch))
 
 /-- the same on naturals (every caller passes a non-negative offset and batch unless a uint64 ≥ 2^63 is cast) -/
 def sliceBounds (len off batch : Nat) : Nat × Nat :=
